@@ -48,7 +48,10 @@ PROPS = {
                 note="lattices: cubic-type (19 groups incl. magnetic) and hexagonal (6 groups); exact comparison is on integers "
                      "(K*NKdiv mod NKdiv, factor*prod(NKdiv), kpoints_all*N mod N); float results of run() with the one-hot calculator are "
                      "compared with 1e-9 after scaling to integers. Not compared: warning texts, exception classes, the rounding rule of "
-                     "NK/NKFFT, which orbit representative is kept, whether a non-symmetric grid is refused (reported as information)",
+                     "NK/NKFFT, which orbit representative is kept, whether a non-symmetric grid is refused (reported as information). "
+                     "tetra=True calculators are compared across factorisations without symmetry only: with symmetry reduction the tetrahedron "
+                     "method differs from the full grid (C07, known finding run:tetra:irreducible_vs_full), so they are left out of the "
+                     "C4v-symmetric irreducible world",
                 ref="DESIGN.md 3.2, 5 (C03)"),
 }
 
@@ -787,7 +790,7 @@ def numeric_worlds(thorough):
     ext = lambda Ef, om, tab=True: real_calculators(Ef, om, tab=tab, external=True)
     # without the tetrahedron calculators: the 12 tetrahedra of TetraWeightsParal cut every face along one fixed diagonal, which a
     # 4-fold rotation or a mirror maps to the other one - with symmetry reduction the tetrahedron results are not those of the
-    # full grid (reported as an observation by C07, property of the symmetry reduction, not of the factorisation)
+    # full grid (C07's business: known finding run:tetra:irreducible_vs_full; property of the symmetry reduction, not of the factorisation)
     internal = lambda Ef, om, tab=True: real_calculators(Ef, om, tab=tab, external=False, tetra=False)
     both = ("fftw", "numpy")
     # 6 = 2 x 3: the only way to have an odd FFT length together with a non-zero K-shift
